@@ -158,6 +158,9 @@ type cluster struct {
 	board string
 	lock  string
 	nodes []*vnode
+	// resultHook, if set, sees every airgapped result before it is handed to the participant's node (a participant
+	// controls both of its machines, so it may alter its own results)
+	resultHook func(n *vnode, res *types.Operation)
 }
 
 var testMnemonics = []string{
@@ -352,6 +355,9 @@ func (c *cluster) answerOp(n *vnode, op *types.Operation) error {
 	var res types.Operation
 	if err := json.Unmarshal(rb, &res); err != nil {
 		return fmt.Errorf("result file: %w", err)
+	}
+	if c.resultHook != nil {
+		c.resultHook(n, &res)
 	}
 	return n.svc.ProcessOperation(opToDTO(&res))
 }
